@@ -220,6 +220,15 @@ StorePending(b) ==
   /\ act' = [name |-> "StorePending", v |-> b.version, var |-> b.cid[2], f |-> "", kind |-> "", seal |-> "", h |-> b.cid[1]]
   /\ StoreStage(b)
 
+(* the node restarts: new objects over the same database (gracefully - the running event filter is
+   persisted first - or not).  Blocks verified ahead live in the sync pipeline's memory and are
+   gone; everything the property speaks about is in the database and must be unaffected. *)
+Restart(graceful) ==
+  /\ act' = Act("Restart", "", "", "", IF graceful THEN "graceful" ELSE "ungraceful")
+  /\ res' = [kind |-> "restarted", stage |-> "", why |-> "ok"]
+  /\ pending' = {}
+  /\ UNCHANGED <<chain, db, state, cur>>
+
 Init ==
   /\ chain = <<>> /\ state = <<>> /\ pending = {}
   /\ db = [height |-> -1, byNumber |-> {}, byHash |-> {}]
@@ -236,6 +245,7 @@ Next ==
   \/ \E v \in VSet, var \in Shapes : OfferCommitFails(v, var)
   \/ \E v \in VSet, var \in Shapes : VerifyAhead(v, var)
   \/ \E b \in pending : StorePending(b)
+  \/ \E g \in BOOLEAN : Restart(g)
 
 Spec == Init /\ [][Next]_vars
 
@@ -287,6 +297,9 @@ RejectedUnchanged ==
 TamperRejected ==
   [][act'.name \in {"OfferTampered", "OfferWrongParent", "OfferWrongNumber", "OfferWrongRoot",
                     "OfferStaleClassHash"} => res'.kind = "rejected"]_vars
+
+RestartIsNoOp ==
+  [][act'.name = "Restart" => UNCHANGED <<chain, db, state>>]_vars
 
 ValidAccepted ==
   [][act'.name = "Offer" => res'.kind = "accepted" /\ Len(chain') = Len(chain) + 1]_vars
